@@ -90,14 +90,62 @@ def same_seq(p, a, b):
     return seqops.seq_eq_structural(it, a, b) is True
 
 
+BE_U32_FORMATS = ('>I', '!I', '>L', '!L')
+
+
 def unpacked_length(p):
-    """The integer unpacked from the record prefix (IntV) or None."""
+    """The integer decoded from the record prefix (IntV) and the decoding event, or (None, None).
+    Accepts struct.unpack with a big-endian unsigned 4-byte format and int.from_bytes(prefix, 'big')."""
     for e in p.events:
-        if e.kind == 'ext-call' and e.data['callee'] == 'struct.unpack' and e.under(VNEXT):
-            r = e.data['result']
-            if isinstance(r, TupleV) and r.items and isinstance(r.items[0], IntV):
-                return r.items[0], e
+        if e.kind == 'ext-call' and e.under(VNEXT):
+            if e.data['callee'] == 'struct.unpack':
+                r = e.data['result']
+                if isinstance(r, TupleV) and r.items and isinstance(r.items[0], IntV):
+                    return r.items[0], e
+            if e.data['callee'] == 'int.from_bytes':
+                r = e.data['result']
+                if isinstance(r, IntV):
+                    return r, e
     return None, None
+
+
+def packed_u32_value(d):
+    """If the bytes descriptor `d` is the 4-byte big-endian unsigned encoding of an integer, return that IntV."""
+    if not (isinstance(d, SeqV) and len(d.segs) == 1 and isinstance(d.segs[0], Opq) and isinstance(d.segs[0].desc, tuple)):
+        return None
+    desc = d.segs[0].desc
+    if desc[0] == 'pack' and desc[1] in BE_U32_FORMATS and len(desc[2]) == 1 and isinstance(desc[2][0], IntV):
+        return desc[2][0]
+    if desc[0] == 'to_bytes' and desc[2] == 'big' and isinstance(desc[1], IntV) and d.segs[0].len == Lin.const(4):
+        return desc[1]
+    return None
+
+
+def length_codecs(p, fname):
+    """Canonical names of the length-prefix codecs used below `fname` on this path."""
+    out = set()
+    it = p.interp
+    for e in p.events:
+        if e.kind != 'ext-call' and e.kind != 'method':
+            continue
+        if not e.under(fname):
+            continue
+        if e.kind == 'ext-call' and e.data['callee'] in ('struct.pack', 'struct.unpack') and e.data['args']:
+            f0 = it.py_key(it.resolve(e.data['args'][0]))
+            out.add('be-u32' if f0 in BE_U32_FORMATS else f'struct {f0!r}')
+        elif e.kind == 'ext-call' and e.data['callee'] == 'int.from_bytes':
+            a = e.data['args']
+            order = it.py_key(a[1]) if len(a) > 1 else it.py_key(e.data['kwargs'].get('byteorder'))
+            signed = e.data['kwargs'].get('signed')
+            n = it.store.canon(a[0].length()) if a and isinstance(a[0], SeqV) else None
+            ok = order == 'big' and n is not None and n == Lin.const(4) and not (signed is not None and it.truth(signed))
+            out.add('be-u32' if ok else f'from_bytes({n}, {order!r})')
+        elif e.kind == 'method' and e.data['name'] == 'to_bytes':
+            a = e.data['args']
+            n = it.py_key(a[0]) if a else it.py_key(e.data['kwargs'].get('length'))
+            order = it.py_key(a[1]) if len(a) > 1 else it.py_key(e.data['kwargs'].get('byteorder'))
+            out.add('be-u32' if (n == 4 and order == 'big') else f'to_bytes({n}, {order!r})')
+    return out
 
 
 def max_len(prog):
